@@ -280,9 +280,16 @@ impl<'g, 'r> ProgGen<'g, 'r> {
                     init: None,
                 });
             }
-            if self.g.chance(1, 3) {
+            // zero to two "hardware registers": constant pointers into the register areas of the
+            // memory map, one below and one above $100, in either order
+            let n = self.g.weighted(&[5, 3, 3]);
+            let mut used = std::collections::HashSet::new();
+            for _ in 0..n {
                 let name = self.fresh("R");
-                let addr = if self.g.chance(1, 2) { 0xE0 + self.g.below(0x20) as i32 } else { 0xF00 + self.g.below(0x100) as i32 };
+                let mut addr = if self.g.chance(1, 2) { 0xE0 + self.g.below(0x20) as i32 } else { 0xF00 + self.g.below(0x100) as i32 };
+                while !used.insert(addr) {
+                    addr = 0xF00 + self.g.below(0x100) as i32;
+                }
                 self.globals.push(VarDecl {
                     name,
                     ty: Ty::U8,
@@ -1282,7 +1289,8 @@ impl<'g, 'r> ProgGen<'g, 'r> {
             self.globals.iter().filter(|g| g.kind == VarKind::Scalar && is8(g.ty) && g.mem == MemQual::Default && !fc.protected.contains(&g.name) && !g.name.starts_with("hv")).map(|g| g.name.clone()).collect();
         let prot_x = fc.protected.contains("X");
         let prot_y = fc.protected.contains("Y");
-        let mut menu: Vec<(String, u32)> = vec![("NOP".into(), 1)];
+        // a comment line of the assembler: no code, declared size 0
+        let mut menu: Vec<(String, u32)> = vec![("NOP".into(), 1), ("; ---- marker ----".into(), 0)];
         if !prot_x {
             menu.push((format!("LDX #{}", self.g.below(6)), 2));
             menu.push(("INX".into(), 1));
@@ -1303,7 +1311,8 @@ impl<'g, 'r> ProgGen<'g, 'r> {
         }
         let (t, size) = self.g.pick(&menu).clone();
         // zero-page operands: declared size is the true size; absolute (ramchip) would be 3
-        Stmt::Asm(t, if self.g.chance(3, 4) { Some(size) } else { None })
+        // (a comment always carries its size hint: without one it would count as 3 bytes of nothing)
+        Stmt::Asm(t, if size == 0 || self.g.chance(3, 4) { Some(size) } else { None })
     }
 
     fn hw_stmt(&mut self, fc: &mut FnCtx) -> Vec<Stmt> {
@@ -1748,12 +1757,15 @@ impl<'g, 'r> ProgGen<'g, 'r> {
                     1 => Expr::Un(UnOp::LNot, Box::new(Expr::var(&c))),
                     _ => Expr::bin(BinOp::Ne, Expr::var(&c), Expr::lit(0)),
                 };
-                vec![
-                    Stmt::Expr(Expr::assign(LValue::Var(a.clone()), Expr::lit(kk))),
-                    Stmt::Expr(middle),
-                    Stmt::Expr(Expr::assign(LValue::Var(c.clone()), Expr::lit(kk))),
-                    Stmt::If(cond, Box::new(Stmt::Expr(Expr::assign(LValue::Var(a), Expr::lit(k + 40)))), None),
-                ]
+                let mut out = vec![Stmt::Expr(Expr::assign(LValue::Var(a.clone()), Expr::lit(kk))), Stmt::Expr(middle)];
+                // the constant may go to a further variable first (two stores between the load
+                // that looks redundant and the test)
+                if self.g.chance(1, 2) && b != c && !matches!(out[1], Stmt::Expr(Expr::IncDec(_, _, LValue::Var(ref n))) if *n == b) {
+                    out.push(Stmt::Expr(Expr::assign(LValue::Var(b.clone()), Expr::lit(kk))));
+                }
+                out.push(Stmt::Expr(Expr::assign(LValue::Var(c.clone()), Expr::lit(kk))));
+                out.push(Stmt::If(cond, Box::new(Stmt::Expr(Expr::assign(LValue::Var(a), Expr::lit(k + 40)))), None));
+                out
             }
             17 | 18 | 19 => {
                 // a variable is read into a register, written from another register, read again
@@ -1771,6 +1783,21 @@ impl<'g, 'r> ProgGen<'g, 'r> {
                     1 if !py => Expr::var("Y"),
                     _ => Expr::lit(k + 3),
                 };
+                if !arrs.is_empty() && !(px && py) && self.g.chance(1, 3) {
+                    // the same array element spelled two ways: ar[Y] with Y == k, and ar[k]
+                    let (ar, _, n) = self.g.pick(&arrs).clone();
+                    let kx = self.g.below(n) as i32;
+                    let (ireg, sreg) = if px || (!py && self.g.chance(1, 2)) { ("Y", "X") } else { ("X", "Y") };
+                    let via = || Expr::Lv(LValue::Index(ar.clone(), Box::new(Expr::var(ireg))));
+                    let src2 = if fc.protected.contains(sreg) { Expr::lit(k + 3) } else { Expr::var(sreg) };
+                    return vec![
+                        Stmt::Expr(Expr::assign(LValue::Var(ireg.into()), Expr::lit(kx))),
+                        Stmt::Expr(Expr::assign(LValue::Var(t1.clone()), via())),
+                        Stmt::Expr(Expr::assign(LValue::Index(ar.clone(), Box::new(Expr::lit(kx))), src2)),
+                        Stmt::Expr(Expr::assign(LValue::Var(t2), via())),
+                        Stmt::Expr(Expr::assign(LValue::Var(t1), Expr::lit(k + 5))),
+                    ];
+                }
                 let store = Stmt::Expr(Expr::assign(LValue::Var(v.clone()), src));
                 // (a load whose flags may still be needed is never removed: something that starts
                 // with a load of its own follows)
